@@ -295,23 +295,48 @@ class GuardDom(InlineDomain):
                 st = st.set(("m", pk, "flag"), AVal("bits", k1=self.inject[0], k0=self.inject[1]))
                 st = st.set(("m", pk, "format"), self.fmt)
             return st
+        if slot_of_call(call) == "wait" and self.wait_rejects():
+            return st          # the driver's wait rejects this mode before any effect (R11.dguard decides that): not an effect
         if slot_of_call(call):
             return st.set("$drv", fin(call.get("l", 0)))
         return allreduce_min_effect(self, call, st)
+
+    D_BIT = I_BIT = 0
+
+    def wait_rejects(self):
+        k1 = self.inject[0]
+        return bool(k1 & self.D_BIT) or (bool(k1 & self.I_BIT) and self.fn.name.endswith("_all"))
+
+    def call_value(self, call, st):
+        if slot_of_call(call) == "wait" and self.wait_rejects():
+            return NONZERO
+        return super().call_value(call, st)
 
     def on_elem(self, elem, st, blk, idx):
         if elem.get("k") == "ret":
             return st.set("$ret", self.eval(elem.get("e"), st) if elem.get("e") is not None else None)
         return st
 
+
+
     def branch(self, blk, st):
-        # multi-variable APIs are examined for nvars >= 1: the first iteration of `for (i=0; i<nvars; ..)` runs
+        # the number of variables / requests is not negative: once it is known not to be zero (the function tested it), the
+        # first iteration of `for (i=0; i<nvars; ..)` runs.  Where the function makes no such test both outcomes are explored.
         c = blk.cond
         if c is not None and blk.term == "for" and c.get("k") == "bin" and c.get("op") == "<":
             b = strip(c["b"])
             if isinstance(b, dict) and b.get("k") == "ref" and b.get("dk") == "param" and b.get("n") in ("nvars", "num") \
                     and self.eval(c["a"], st).must_be(0) and blk.succs[0] is not None:
-                return [(blk.succs[0], st)]
+                v = self.eval(b, st)
+                if not v.may_be_zero():
+                    return [(blk.succs[0], st)]
+                key = lvalue_key(b)
+                out = []
+                if not v.must_be(0):
+                    out.append((blk.succs[0], st.set(key, NONZERO)))      # at least one variable
+                if blk.succs[1] is not None:
+                    out.append((blk.succs[1], st.set(key, ZERO)))         # none (the count is not negative)
+                return out
         return super().branch(blk, st)
 
 
@@ -370,10 +395,9 @@ def check_guards(ctx, prog, bits, errs):
         for label, k1, k0, ename in guards:
             dom = GuardDom(fn, prog)
             dom.inject = (k1, k0)
+            GuardDom.D_BIT, GuardDom.I_BIT = bits["NC_MODE_DEF"], bits["NC_MODE_INDEP"]
+            # the number of requests / variables is left open: a call with none is still a call in a forbidden mode
             init = State()
-            for p in fn.params:
-                if p["n"] in ("nvars", "num"):
-                    init = init.set(("v", p["id"], p["n"]), NONZERO)
             try:
                 ex = Explorer(fn, dom, max_states=100000).run(init)
             except Budget as e:
@@ -455,6 +479,7 @@ def check_driver_guards(ctx, prog, bits, errs):
     D, I, R = bits["NC_MODE_DEF"], bits["NC_MODE_INDEP"], bits["NC_MODE_RDONLY"]
     table = [
         ("ncmpio_wait", "define-mode", D, 0, "NC_EINDEFINE"),
+        ("ncmpio_wait", "independent-mode", I, D, "NC_EINDEP"),       # a collective wait (reqMode without NC_REQ_INDEP)
         ("ncmpio_sync", "define-mode", D, 0, "NC_EINDEFINE"),
         ("ncmpio_sync_numrecs", "define-mode", D, 0, "NC_EINDEFINE"),
         ("ncmpio_begin_indep_data", "define-mode", D, 0, "NC_EINDEFINE"),
@@ -469,6 +494,8 @@ def check_driver_guards(ctx, prog, bits, errs):
         for p in fn.params:
             if p["n"] == "ncp":
                 init = init.set(("m", ("v", p["id"], "ncp"), "flags"), AVal("bits", k1=k1, k0=k0)).set("$inj", ONE)
+            if p["n"] == "reqMode" and label == "independent-mode":
+                init = init.set(("v", p["id"], "reqMode"), ZERO)
         ex = Explorer(fn, dom).run(init)
         ctx.states += ex.visited
         bad = None
